@@ -2,8 +2,17 @@
 from django.db import models
 
 
+class Country(models.Model):
+    name = models.CharField(max_length=50)
+
+    class Meta:
+        app_label = "djapp"
+
+
 class Region(models.Model):
     name = models.CharField(max_length=50, null=True)
+    # the one to-one relationship over a NOT NULL foreign key (every region has a country)
+    country = models.ForeignKey(Country, on_delete=models.CASCADE, related_name="regions")
 
     class Meta:
         app_label = "djapp"
